@@ -12,16 +12,20 @@ namespace GmQuic.Codec
 open GmQuic.Wire GmQuic.Gen GmQuic.Gen.HdrCodec
 
 theorem gen_hsize_initial_eq (d s tok : Bytes) :
-    some (hsize_initial d s tok) = headerSize (.initial d s tok) := rfl
+    some (hsize_initial d s tok) = headerSize (.initial d s tok) := by
+  first | rfl | (simp only [hsize_initial, headerSize]; congr 1; omega)
 
 theorem gen_hsize_zero_rtt_eq (d s : Bytes) :
-    some (hsize_zero_rtt d s) = headerSize (.zeroRtt d s) := rfl
+    some (hsize_zero_rtt d s) = headerSize (.zeroRtt d s) := by
+  first | rfl | (simp only [hsize_zero_rtt, headerSize]; congr 1; omega)
 
 theorem gen_hsize_handshake_eq (d s : Bytes) :
-    some (hsize_handshake d s) = headerSize (.handshake d s) := rfl
+    some (hsize_handshake d s) = headerSize (.handshake d s) := by
+  first | rfl | (simp only [hsize_handshake, headerSize]; congr 1; omega)
 
 theorem gen_hsize_one_rtt_eq (spin : Bool) (d : Bytes) :
-    some (hsize_one_rtt spin d) = headerSize (.oneRtt spin d) := rfl
+    some (hsize_one_rtt spin d) = headerSize (.oneRtt spin d) := by
+  first | rfl | (simp only [hsize_one_rtt, headerSize]; congr 1; omega)
 
 theorem gen_henc_initial_eq (d s tok : Bytes) :
     henc_initial d s tok = encHeader (.initial d s tok) := by
